@@ -484,6 +484,8 @@ def render(info):
     o.append(enum("At", ats))
     o.append(enum("Fn", fns))
     o.append("inductive Kd where\n  | read | write | rmw\n  deriving DecidableEq, Repr\n")
+    o.append("/-- every function of `Fn` (to quantify over all call sites) -/\n")
+    o.append("def allFns : List Fn := [" + ", ".join(f".{_ident(f)}" for f in fns) + "]\n")
     o.append("structure Access where\n  fn : Fn\n  attr : At\n  kind : Kd\n  locks : List Lk\n  blk : Nat\n  deriving DecidableEq, Repr\n")
 
     def lks(ls):
@@ -531,6 +533,23 @@ end Generated.Locks
 @register(props=["C15", "C16"])
 def gen_locks():
     write_if_changed("Locks.lean", render(analyse()))
+
+
+@register(props=["C15"])
+def gen_open_findings():
+    """Which known findings of C15 are still OPEN (status "known" in /verif/known_findings.d/C15.json).  The tie theorem
+    `blocks_new_packet` accepts the unrepaired section shape of LocationTable.new_*_packet only while C15-KF2 is open:
+    marking the finding `fixed` makes the theorem strict, so moving the LocTE update out of `loc_t_lock` again
+    re-opens a proof obligation."""
+    import json
+    path = os.path.join(os.path.dirname(gen_lean.LEAN), "known_findings.d", "C15.json")
+    entries = json.load(open(path)) if os.path.exists(path) else []
+    kf2_open = any(e.get("id") == "C15-KF2" and e.get("status") == "known" for e in entries)
+    write_if_changed("OpenFindings.lean",
+                     "namespace Generated.OpenFindings\n"
+                     "/-- known_findings.d/C15.json lists C15-KF2 with status \"known\" (not yet repaired in /repo) -/\n"
+                     f"def C15_KF2 : Bool := {'true' if kf2_open else 'false'}\n"
+                     "end Generated.OpenFindings\n")
 
 
 if __name__ == "__main__":
